@@ -63,6 +63,13 @@ CLASS.update({
     "enum-nested-tuple-target": "from enum import Enum\n\n\nclass E(Enum):\n    (A, B), C = (1, 2), 3\n    D, *REST = 4, 5, 6\n",
     "variable-as-annotation": "from typing import Any\n\nThing: Any = object\nOther = int if True else str\n\n\ndef f(a: Thing, b: Other) -> Thing:\n    ...\n\n\nclass K:\n    x: Thing\n",
 })
+CLASS.update({
+    "enum-via-module-with-methods": "import enum\n\n\nclass Level(enum.Enum):\n    LOW = 1\n    HIGH = 2\n\n    def is_loud(self) -> bool:\n        return self is Level.HIGH\n\n    @property\n    def label(self) -> str:\n        return self.name\n\n    class Nested:\n        pass\n\n\nclass Bits(enum.IntFlag):\n    A = 1\n\n    @classmethod\n    def parse(cls, s: str) -> \"Bits\":\n        return cls.A\n",
+    "nested-subscript-typing-base": "from collections.abc import Sequence\n\n\nclass Rows(Sequence[list[int]]):\n    def __getitem__(self, i):\n        return []\n\n    def __len__(self) -> int:\n        return 0\n\n\nclass Node(Sequence[\"Node\"]):\n    def __getitem__(self, i):\n        return self\n\n    def __len__(self) -> int:\n        return 0\n",
+    "protocol-overloads-only": "from typing import Protocol, overload\n\n\nclass P(Protocol):\n    \"\"\"A protocol.\"\"\"\n\n    @overload\n    def m(self, a: int) -> int: ...\n\n    @overload\n    def m(self, a: str) -> str: ...\n",
+    "self-typevar-inferred": "from typing import TypeVar\n\nT = TypeVar(\"T\", bound=\"K\")\n\n\nclass K:\n    def clone(self: T):\n        return self\n\n    def other(self: T, x: int) -> T:\n        return self\n",
+    "code-after-module-raise": "def before(a: int) -> int:\n    ...\n\n\nraise RuntimeError(\"not importable\")\n\n\ndef after(a, b=1):\n    return a\n\n\nclass K:\n    def m(self, x):\n        return x\n",
+})
 FOREIGN = {
     "one-segment": "def f(x):\n    return x\n\n\ndef g(y):\n    return y, 1\n",
     "two-segment": "from pathlib import Path\n\n\ndef f(p: Path) -> Path:\n    ...\n",
